@@ -82,6 +82,9 @@ func parseOpts(args []string) *Opts {
 	return o
 }
 
+// AllCurves: every supported curve (thorough tier, or when the driver found the per-curve instances to diverge)
+func (o *Opts) AllCurves() bool { return o.Thorough() || os.Getenv("VERIF_ALL_CURVES") != "" }
+
 func (o *Opts) Thorough() bool { return o.Tier == "thorough" }
 
 // Failure is a concrete input on which the property text itself fails on the implementation
